@@ -17,7 +17,8 @@ Unit(u) == CASE u \in {"", "b"} -> <<1000, 0>> [] u \in {"k", "kib"} -> <<1024, 
 Mult(u) == Pow(Unit(u)[1], Unit(u)[2])
 Units == {"", "b", "k", "kb", "kib", "m", "mb", "mib", "g", "gb", "gib", "t", "tb", "tib"}
 Numbers == { [txt |-> "1", num |-> 1, den |-> 1], [txt |-> "2", num |-> 2, den |-> 1],
-             [txt |-> "1.5", num |-> 3, den |-> 2], [txt |-> "0.5", num |-> 1, den |-> 2] }
+             [txt |-> "1.5", num |-> 3, den |-> 2], [txt |-> "0.5", num |-> 1, den |-> 2],
+             [txt |-> ".5", num |-> 1, den |-> 2], [txt |-> "1.50", num |-> 3, den |-> 2] }      \* (other spellings of the same fractions)
 (* fractional numbers only with units whose multiplier is even; `b`/none take whole numbers *)
 ValueOf(u, n) == DivSmall(MulSmall(Mult(u), n.num), n.den)
 Allowed(u, n) == n.den = 1 \/ Unit(u)[2] > 0
